@@ -39,16 +39,18 @@ def standalone(job):
 
 def canon_alone(o):
     return {"exc": bool(o["exc"]), "lines": o.get("lines"), "vars": o.get("vars"), "is_valid": o.get("is_valid"), "errors": o.get("errors"),
-            "printouts": o.get("printouts"), "scan_count": o.get("scan_count"), "match_count": o.get("match_count"), "stopped": o.get("stopped")}
+            "printouts": o.get("printouts"), "scan_count": o.get("scan_count"), "match_count": o.get("match_count"), "stopped": o.get("stopped"),
+            "pln": o.get("pln"), "dlc": o.get("dlc")}
 
 
 def canon_member(m, with_lines):
     return {"exc": False, "lines": m["lines"] if with_lines else None, "vars": m["vars"], "is_valid": m["is_valid"], "errors": m["errors"],
-            "printouts": m["printouts"], "scan_count": m["scan_count"], "match_count": m["match_count"], "stopped": m["stopped"]}
+            "printouts": m["printouts"], "scan_count": m["scan_count"], "match_count": m["match_count"], "stopped": m["stopped"],
+            "pln": m.get("pln"), "dlc": m.get("dlc")}
 
 
 def diff(a, b, with_lines):
-    for k in ("vars", "is_valid", "errors", "printouts", "scan_count", "match_count", "stopped") + (("lines",) if with_lines else ()):
+    for k in ("vars", "is_valid", "errors", "printouts", "scan_count", "match_count", "stopped", "pln", "dlc") + (("lines",) if with_lines else ()):
         if a[k] != b[k]:
             return k
     return None
